@@ -40,6 +40,7 @@ type Ptr struct {
 	Ref  T
 	Base types.Type // type of the base object: struct (PObj), boxed type (PBox), array element type (PArr), global type (PGlobal)
 	Name string     // PGlobal
+	Global *ssa.Global
 	Path []Sel
 }
 
@@ -484,7 +485,7 @@ func (ex *Exec) get(st *State, fr *Frame, v ssa.Value) Val {
 			return &Ptr{Kind: PGlobal, Name: "err:" + x.Pkg.Pkg.Name() + ":" + x.Name(), Base: x.Type().(*types.Pointer).Elem()}
 		}
 		name, _ := ex.c.GlobalHeap(x)
-		return &Ptr{Kind: PGlobal, Name: name, Base: x.Type().(*types.Pointer).Elem()}
+		return &Ptr{Kind: PGlobal, Name: name, Global: x, Base: x.Type().(*types.Pointer).Elem()}
 	case *ssa.Function:
 		return &FuncRef{x}
 	case *ssa.Builtin:
@@ -630,6 +631,12 @@ func (ex *Exec) load(st *State, p *Ptr) T {
 		if strings.HasPrefix(p.Name, "err:") {
 			f := strings.Split(p.Name, ":")
 			return c.ErrConst(f[1], f[2])
+		}
+		if p.Global != nil {
+			if v, ok := c.ConstGlobal(p.Global.Pkg.Pkg.Path(), p.Global.Name()); ok {
+				r, _ := ex.loadPath(v, p.Base, p.Path)
+				return r
+			}
 		}
 		r, _ := ex.loadPath(st.Heap(p.Name, c.SortOf(p.Base)), p.Base, p.Path)
 		return r
@@ -795,7 +802,6 @@ func VerifyFunction(c *Ctx, fn *ssa.Function, ct *Contract, want func(string, []
 			st.assume(ev.Bool(r.E))
 		}
 	}
-	ex.applyAxioms(st)
 	ex.cover(st, ex.key, "cover:pre", ex.funcTags(ct), ex.pos(fn.Pos()))
 	fr.block = fn.Blocks[0]
 	ex.runAll(st)
